@@ -64,3 +64,6 @@ pub(crate) use helpers::*;
 #[allow(unused_imports)]
 pub(crate) use helpers_32::*;
 pub(crate) use sanity::SideMetadataSanity;
+
+#[cfg(any(kani, mmtk_verif))]
+pub use sanity::verif_hooks as sanity_verif_hooks;
